@@ -130,6 +130,11 @@ def main(tier, seed, replay=None):
         cases.append(c)
     workdir = os.path.join(COQ, "run", "C15")
     results = run_harness(binp, "mbuilder", cases, workdir, timeout_ms=10000, shards=NPROC)
+    rel = release_differences("mbuilder", cases, results, workdir, timeout_ms=10000, every=(3 if tier == "quick" else 10), with_index=True)
+    for k, c, rr in rel:        # release-profile runs that differ from the dev profile are judged like any other
+        progs.append(progs[k])
+        results.append(rr)
+    run.coverage["release_profile_cases_differing_from_dev"] = len(rel)
     terms, idx = [], []
     hist = {}
     nvalid = 0
